@@ -72,7 +72,14 @@ def _install():
         def filter_eligible_plates(self, batch_plates, unobserved_plates, rng):
             cfg = RecordingPolicy.config
             if cfg["kind"] == "kper":
-                res = KPerSamplePlatePolicy(k=cfg["k"]).filter_eligible_plates(batch_plates, unobserved_plates, rng)
+                if cfg.get("reuse"):
+                    # one policy object serves every selection of the run
+                    if cfg.get("obj") is None or cfg.get("obj_k") != cfg["k"]:
+                        cfg["obj"], cfg["obj_k"] = KPerSamplePlatePolicy(k=cfg["k"]), cfg["k"]
+                    real = cfg["obj"]
+                else:
+                    real = KPerSamplePlatePolicy(k=cfg["k"])
+                res = real.filter_eligible_plates(batch_plates, unobserved_plates, rng)
             else:
                 res = [p for p in unobserved_plates if int(p.plate_id) in cfg["allowed"]]
             RecordingPolicy.calls.append((sorted(int(p.plate_id) for p in batch_plates),
@@ -118,7 +125,7 @@ def gen_plan(prop, run_seed, tier):
     return dict(engine="scoresim", prop=prop, screen=spec, scorer=scorer, n_thetas=w.randint(3, 5), D=w.randint(1, 2),
                 seed=w.randrange(2**31), n_chunks=s.choice([1, 1, 2, 3, 4, n_plates, n_plates + 1, n_plates + 4, 16]),
                 batch_mode=s.choice(["none", "none", "unobserved", "unobserved", "observed", "mixed", "all"]),
-                order_seed=s.randrange(2**31), policy=policy, k=s.randint(1, 3), path=s.choice(["cli", "func", "func"]),
+                order_seed=s.randrange(2**31), policy=policy, k=s.randint(1, 3), path=s.choice(["cli", "func", "func-shared"]),
                 tie_mode=w.choice(["distinct", "ties", "ties", "neginf", "all-equal"]), max_chunk=w.choice([1, 2, 50]))
 
 
@@ -222,11 +229,21 @@ def _run(plan, scratch, log, stats, violation):
     sub_rng(plan["order_seed"], "order").shuffle(order)
     files = {}
     per_chunk_calls = {}
+    shared = None
+    if plan["path"] == "func-shared":
+        # one driver process keeps the loaded screen / samples / distances / scorer and serves every chunk index
+        shared = dict(scorer=RS(), thetas=ThetaHolder.load_h5(tpath), screen=Screen.load_h5(spath),
+                      dm=ChunkedDistanceMatrix.load(dpath))
     for ci in order:
         out = scratch.file(f"score_chunk_{ci}.h5")
         before = len(RS.calls)
         try:
-            if plan["path"] == "cli":
+            if shared is not None:
+                res = score_chunk(scorer=shared["scorer"], thetas=shared["thetas"], screen=shared["screen"],
+                                  distance_matrix=shared["dm"], rng=np.random.default_rng(plan["seed"] + ci),
+                                  n_chunks=plan["n_chunks"], chunk_index=ci, batch_plate_ids=list(batch) if batch else None)
+                res.save_h5(out)
+            elif plan["path"] == "cli":
                 pipe.p_scores(spath, [tpath], [dpath], out, n_chunks=plan["n_chunks"], chunk_index=ci, scorer="RecordingScorer",
                               batch=batch, seed=plan["seed"] % 1000, entropy=pipe.h64(plan["seed"], "score", ci))
             else:
@@ -297,7 +314,8 @@ def _run(plan, scratch, log, stats, violation):
         else:
             holders = [ChunkedScoresHolder.load_h5(x) for x in arrival]
             sc = ChunkedScoresHolder.concat(holders)
-            pl = select_next_plate(scores=sc, screen=Screen.load_h5(spath), policy=None if plan["policy"] == "none" else RP(),
+            pl = select_next_plate(scores=sc, screen=(shared["screen"] if shared is not None else Screen.load_h5(spath)),
+                                   policy=None if plan["policy"] == "none" else RP(),
                                    batch_plate_ids=list(batch), rng=np.random.default_rng(5))
             got = -1 if pl is None else int(pl.plate_id)
     except pipe.HarnessError:
